@@ -239,6 +239,14 @@ def run(ctx):
         for v in vs:
             ctx.violation(*v)
     ctx.evaluations += len(jobs); ctx.traces += len(jobs); ctx.exhaustive = True
+    # binding self-test: the same replay against a corrupted expectation (one pixel of the spec's image changed) must report
+    probe = next((j for j in jobs if j[1]['any_overlap'] and j[2][:2] == ('center', False)), None)
+    if probe is not None:
+        badcase = core.jcopy(probe[1])
+        img = badcase['image']
+        r0, c0 = next((r, c) for r in range(len(img)) for c in range(len(img[0])) if img[r][c] != 0)
+        img[r0][c0] += 1
+        ctx.selftest('one pixel of the expected image changed', any(v[0] == 'image_is_superposition' for v in replay_case((probe[0], badcase, probe[2]))))
     ctx.nontrivial += sum(1 for c in cases if len(c['rows']) >= 2 and any(w['y1'] - w['y0'] < r['mh'] or w['x1'] - w['x0'] < r['mw'] for w, r in zip(c['windows'], c['rows'])))
     ctx.sample({'kind': 'GEN case', 'rows': cases[len(cases) // 2]['rows'], 'image': cases[len(cases) // 2]['image']})
     # the window rule itself (shared with C12 / C17): CutoutImage against Cutout.tla on the whole lattice
